@@ -359,6 +359,10 @@ def check(run):
                 run.instance("R10", where_, f"`{ast.unparse(c_)[:70]}`: sign flips {flips}{' (other entries not constant)' if unknown else ''}", True, nontrivial=not unknown)
     run.instance("R10", "trimesh/creation.py", f"hand-written diagonal placements examined: {n10}", True, nontrivial=False)
 
+    from ..interiorpt import hole_seed_rule
+    hole_seed_rule(run, ix, "R11", "C15")
+    from ..rigidrule import rigid_rule
+    rigid_rule(run, ix, "R12", "C15")
     return {
         "explanation": "Per primitive class: the defaults table, the constructor's forwarding dict and the parameters read by _create_mesh "
         "(effect analysis through PrimitiveAttributes.__getattr__ into the shared DataStore) must coincide; lazy getters use the "
